@@ -194,7 +194,10 @@ func TestC01RoundTrip(t *testing.T) {
 	r := rec.For("C01RoundTrip")
 
 	rapid.Check(t, prop(r, func(t *rapid.T) {
-		ss := gen.CoherentSchema(t, gen.DefaultSchemaOpts)
+		opts := gen.DefaultSchemaOpts
+		opts.AllowTypeField = true
+		opts.JSONTagOptions = rapid.IntRange(0, 3).Draw(t, "tagoptions") == 0
+		ss := gen.CoherentSchema(t, opts)
 		ts := &ss.Types[rapid.IntRange(0, len(ss.Types)-1).Draw(t, "type")]
 
 		var res jsonapi.Resource
